@@ -14,6 +14,9 @@ RULE = ("random total rankings over 1-5 atoms (asymmetric: independent ranks 0..
         "(incl. preserved formula ranks over the remaining atoms), compute_conditionalization, ranks2tpo and tpo2ranks with identity, "
         "strictly increasing and 'i-th distinct rank' numberings; thorough: exhaustive for <= 2 atoms with ranks <= 2; "
         "non-trivial = ranking not constant and formula not a literal; distinct by (ranking, operation, argument)")
+RULE += ("; lazily evaluated objects: System Z and c-representation objects of random strict bases (incl. exception chains with >= 3 layers) are "
+         "asked random sequences of formula_rank / conditional_acceptance / rank_world while only part of their ranks is computed; every "
+         "result must equal the law applied to the ranking a fresh, fully computed object of the same base has")
 ASSUMPTIONS = ["rankings are total (every world has a rank), as the property states"]
 
 
@@ -156,6 +159,12 @@ def compare(case, impl, resp, tags):
 
 
 def recheck(case):
+    if "ops" in case:
+        base_case = {k: case[k] for k in ("n", "kind", "base", "ops")}
+        impl = impl_lazy(base_case)
+        resp = core.driver_batch(lazy_lines(base_case, impl)) if "err" not in impl else []
+        fs = compare_lazy(base_case, impl, resp)
+        return fs[0] if fs else None
     impl = impl_eval(case)
     lines, tags = driver_lines(case)
     resp = core.driver_batch(lines)
@@ -209,6 +218,104 @@ def gen_case(rng, n=None, max_rank=6):
             "numberings": [distinct, incr, arbitrary]}
 
 
+def impl_lazy(case):
+    """a lazily evaluated ranking object asked a sequence of operations; reference ranking = a fresh, fully computed object"""
+    from inference.conditional import Conditional
+    from inference.preocf import PreOCF
+    from props import answers
+
+    n = case["n"]
+    names = core.names_for(n)
+    out = {}
+    try:
+        with warnings.catch_warnings():
+            warnings.simplefilter("ignore")
+            mk = (lambda: PreOCF.init_system_z(core.make_bb(names, answers.keyed(case["base"])))) if case["kind"] == "z" else \
+                 (lambda: PreOCF.init_random_min_c_rep(core.make_bb(names, answers.keyed(case["base"]))))
+            ref = mk()
+            full = dict(ref.compute_all_ranks())
+            if case["kind"] == "c":
+                imp = ref.save_impacts()
+                from inference.preocf import RandomMinCRepPreOCF
+                o = RandomMinCRepPreOCF.init_with_impacts_list(core.make_bb(names, answers.keyed(case["base"])), list(imp))
+            else:
+                o = mk()
+            out["ranks"] = [full[w] for w in lean_order_worlds(n)]
+            seq = []
+            for op in case["ops"]:
+                if op[0] == "frank":
+                    seq.append(o.formula_rank(core.f_pysmt(op[1], names)))
+                elif op[0] == "accept":
+                    seq.append(bool(o.conditional_acceptance(Conditional(core.f_pysmt(op[1][0], names), core.f_pysmt(op[1][1], names), "c"))))
+                else:
+                    seq.append(o.rank_world(op[1]))
+            out["seq"] = seq
+    except Exception as e:  # noqa: BLE001
+        out["err"] = f"{type(e).__name__}: {e}"[:300]
+    return out
+
+
+def lazy_lines(case, impl):
+    n = case["n"]
+    rk = " ".join(str(r) for r in impl["ranks"])
+    lines = []
+    for op in case["ops"]:
+        if op[0] == "frank":
+            lines.append(f"frank {n} {rk} {core.f_prefix(op[1])}")
+        elif op[0] == "accept":
+            lines.append(f"accept {n} {rk} {core.cond_prefix(0, (op[1][0], op[1][1]))}")
+    return lines
+
+
+def compare_lazy(case, impl, resp):
+    fails = []
+    if "err" in impl:
+        fails.append({"case": case, "impl": impl["err"], "spec": "results", "signature": "lazy object: operation raised " + impl["err"].split(":")[0],
+                      "what": "operation raised"})
+        return fails
+    worlds = lean_order_worlds(case["n"])
+    it = iter(resp)
+    for i, (op, got) in enumerate(zip(case["ops"], impl["seq"])):
+        if op[0] == "frank":
+            r = next(it)
+            want = None if r == "none" else int(r)
+        elif op[0] == "accept":
+            want = next(it) == "1"
+        else:
+            want = impl["ranks"][worlds.index(op[1])]
+        if got != want:
+            name = {"frank": "formula_rank", "accept": "conditional_acceptance", "rank": "rank_world"}[op[0]]
+            fails.append({"case": dict(case, failing_op=i, ranking=dict(zip(worlds, impl["ranks"]))), "impl": got, "spec": want,
+                          "signature": f"lazy {case['kind']}-object: {name} differs from the law on the object's full ranking",
+                          "what": f"{name} wrong on a partially computed object", "theorem": "InfOCF.C18_formulaRank_min"})
+            break
+    return fails
+
+
+def gen_lazy_cases(ctx, count):
+    from props import answers
+
+    rng = ctx.rng
+    out = []
+    for c in answers.gen_cases(ctx, count, (2, 5), (1, 6), [False], q_per=6, consts=0.05, ties=0.2, deep=0.4, outside_sig=0.0):
+        n = c["sig"]
+        worlds = lean_order_worlds(n)
+        ops = []
+        pool = [(q[1], q[2]) for q in c["queries"]] + [(b, a) for _, b, a in c["base"]]
+        for _ in range(rng.randint(3, 8)):
+            t = rng.random()
+            if t < 0.45:
+                f = rng.choice(pool)[rng.randint(0, 1)] if rng.random() < 0.6 else core.gen_formula(rng, n, 2, 0.03)
+                ops.append(["frank", f])
+            elif t < 0.85:
+                b, a = rng.choice(pool)
+                ops.append(["accept", [b, a]])
+            else:
+                ops.append(["rank", rng.choice(worlds)])
+        out.append({"n": n, "kind": "z" if rng.random() < 0.6 else "c", "base": c["base"], "ops": ops})
+    return out
+
+
 def run(ctx):
     from check import pmap
     from props import answers
@@ -251,3 +358,20 @@ def run(ctx):
         ctx.sample({"ranks": dict(zip(lean_order_worlds(c["n"]), c["ranks"])), "formula": core.f_text(c["formulas"][0], core.names_for(c["n"])),
                     "formula_rank": impl.get("frank", [None])[0], "drop": c["drops"][:1], "tpo": impl.get("tpo")})
         ctx.failures.extend(compare(c, impl, resp[off:off + ln], tags))
+    # lazily evaluated objects
+    lazy = gen_lazy_cases(ctx, 120 if quick else 2500)
+    limpl = pmap(impl_lazy, lazy, ctx.procs)
+    lines, per = [], []
+    for c, impl in zip(lazy, limpl):
+        ls = lazy_lines(c, impl) if "err" not in impl else []
+        per.append((len(lines), len(ls)))
+        lines += ls
+    resp = core.driver_batch(lines) if lines else []
+    for c, impl, (off, ln) in zip(lazy, limpl, per):
+        ctx.evaluations += len(c["ops"])
+        ctx.bump(f"lazy:kind={c['kind']}")
+        if "ranks" in impl:
+            ctx.bump(f"lazy:distinct_ranks={min(len(set(impl['ranks'])), 5)}")
+            if len(set(impl["ranks"])) > 1:
+                ctx.nontrivial.add(hash(json.dumps([c["base"], c["ops"], c["kind"]])))
+        ctx.failures.extend(compare_lazy(c, impl, resp[off:off + ln]))
